@@ -740,9 +740,35 @@ def q5(e: Engine, rep: Report):
                           'before every entry was dispatched', loc=w.loc(),
                           reason='loop completed before the rewrite')
         else:
-            rep.bad('Q5', where, 'dispatch loop over the removed entries',
-                    'no loop dispatches the entries that %s removes from '
-                    'the timetable' % meth, loc=ctx.func.loc())
+            # no dispatch anywhere in reach: the removed entries are lost;
+            # a dispatch in a shape not read here is undecided
+            qc0 = common.merged_class(e, QUEUE)
+            seen0, todo0 = set(), [ctx.func]
+            reach = False
+            while todo0 and len(seen0) < 12:
+                f0 = todo0.pop()
+                if f0.qname in seen0:
+                    continue
+                seen0.add(f0.qname)
+                for y in walk_own(f0.node):
+                    if isinstance(y, ast.Attribute) and \
+                            isinstance(y.value, ast.Name) and \
+                            y.value.id == 'self':
+                        if y.attr == '_dequeue':
+                            reach = True
+                        elif y.attr in qc0.methods and y.attr not in (
+                                '_pool_spawn', '_add_queued'):
+                            todo0.append(qc0.methods[y.attr])
+            if reach:
+                rep.unknown('Q5', where, 'dispatch loop over the removed '
+                            'entries', 'cannot see how %s pairs the entries '
+                            'it removes from the timetable with the '
+                            '_dequeue it reaches' % meth, loc=ctx.func.loc())
+            else:
+                rep.bad('Q5', where, 'dispatch loop over the removed '
+                        'entries', 'no loop dispatches the entries that %s '
+                        'removes from the timetable' % meth,
+                        loc=ctx.func.loc())
         # Q7: the shared list is never iterated across a yield point
         for lp in [n for n in g.of_kind('iter') if isinstance(n.ast, ast.For)
                    and 'self.queued' in ast.unparse(n.ast.iter)]:
